@@ -1,4 +1,5 @@
 import itertools
+import collections
 
 from ..helpers.resource_matcher import ResourceMatcher
 
@@ -114,7 +115,11 @@ def concatenate(fields, target={}, resources=None):
                     itertools.chain([resource],
                                     itertools.islice(it,
                                                      num_concatenated-1))
-                yield concatenator(resource_chain, needed_fields, field_mapping)
+                concatenated = concatenator(resource_chain, needed_fields, field_mapping)
+                yield concatenated
+                # whatever comes next may have stopped reading early: the resources that were
+                # concatenated are used up all the same, before the following ones are passed on
+                collections.deque(concatenated, maxlen=0)
             else:
                 yield resource
 
